@@ -120,7 +120,8 @@ class FakeSockMod(object):
     SHUT_RDWR = 2
     error = _socket.error
 
-    def __init__(self, resolve_ok, create_ok, connect_ok):
+    def __init__(self, resolve_ok, create_ok, connect_ok, v6=False):
+        self.v6 = v6
         self.resolve_ok = resolve_ok
         self.create_ok = list(create_ok)
         self.connect_ok = list(connect_ok)
@@ -131,7 +132,16 @@ class FakeSockMod(object):
         self.log.append(("resolve", host, port))
         if not self.resolve_ok:
             raise _socket.gaierror(-2, "Name or service not known")
-        return [(2, 1, 6, "", ("10.0.0.%d" % i, port)) for i in range(len(self.connect_ok))]
+        return [self.addrinfo(i, port) for i in range(len(self.connect_ok))]
+
+    def name(self, i):
+        return ("fd00::%d" % i) if (self.v6 and i % 2 == 0) else ("10.0.0.%d" % i)
+
+    def addrinfo(self, i, port):
+        # dual-stack hosts: IPv6 entries carry a 4-tuple sockaddr (host, port, flowinfo, scope id)
+        if self.v6 and i % 2 == 0:
+            return (10, 1, 6, "", (self.name(i), port, 0, 0))
+        return (2, 1, 6, "", (self.name(i), port))
 
     def socket(self, af, st, proto):
         i = len(self.socks)
@@ -234,55 +244,63 @@ def real_selector_family(rep):
     rep.families.append(dict(name="C09:real-selector", cases=n, rule="real socketpair + lomond's platform selector: the descriptor is closed under the running loop by session.close() from another thread or by closing the socket object; Disconnected must follow within seconds"))
 
 
-def connect_each(rep, tier):
+def judge_connect(resolve_ok, create_ok, connect_ok, v6):
+    """one outcome pattern of the real _connect_sock against the fake socket module; (complaint or None, expected, result, log)"""
     import lomond.session as S
     import lomond.websocket as W
+    naddr = len(connect_ok)
+    fake = FakeSockMod(resolve_ok, create_ok, connect_ok, v6)
+    old = S.socket
+    S.socket = fake
+    try:
+        ws = W.WebSocket("ws://example.test:8080/x")
+        sess = S.WebsocketSession(ws)
+        try:
+            sock = sess._connect_sock("example.test", 8080)
+            res = "ok"
+        except S._SocketFail:
+            sock = None
+            res = "fail"
+        except Exception as e:
+            sock = None
+            res = "exc:" + type(e).__name__
+    finally:
+        S.socket = old
+    usable = [i for i in range(naddr) if create_ok[i] and connect_ok[i]] if resolve_ok else []
+    exp = "ok" if usable else "fail"
+    complaint = None
+    if res != exp:
+        complaint = "connect outcome %s, expected %s" % (res, exp)
+    else:
+        tried = [e[1] for e in fake.log if e[0] == "connect"]
+        upto = (usable[0] + 1) if usable else naddr
+        exp_tried = [fake.name(i) for i in range(upto) if create_ok[i]] if resolve_ok else []
+        if tried != exp_tried:
+            complaint = "addresses tried %s, expected %s (every address in order until the first success)" % (tried, exp_tried)
+        else:
+            for i, sk in enumerate(fake.socks):
+                if sk is not None and not connect_ok[i] and not sk.closed:
+                    complaint = "the socket of a failed connect attempt (address %d) was not closed" % i
+            if usable and sock is not fake.socks[usable[0]]:
+                complaint = "returned socket is not the first one that connected"
+    return complaint, exp, res, fake.log
+
+
+def connect_each(rep, tier):
     import itertools
     n_cases = 0
     for naddr in range(0, 5 if tier == "quick" else 6):
         for resolve_ok in (True, False):
             for create_ok in itertools.product((True, False), repeat=naddr):
-                for connect_ok in itertools.product((True, False), repeat=naddr):
-                    fake = FakeSockMod(resolve_ok, create_ok, connect_ok)
-                    old = S.socket
-                    S.socket = fake
-                    try:
-                        ws = W.WebSocket("ws://example.test:8080/x")
-                        sess = S.WebsocketSession(ws)
-                        try:
-                            sock = sess._connect_sock("example.test", 8080)
-                            res = "ok"
-                        except S._SocketFail:
-                            sock = None
-                            res = "fail"
-                        except Exception as e:
-                            sock = None
-                            res = "exc:" + type(e).__name__
-                    finally:
-                        S.socket = old
-                    n_cases += 1
-                    rep.add_case(("connect_each", naddr, resolve_ok, create_ok, connect_ok))
-                    usable = [i for i in range(naddr) if create_ok[i] and connect_ok[i]] if resolve_ok else []
-                    exp = "ok" if usable else "fail"
-                    complaint = None
-                    if res != exp:
-                        complaint = "connect outcome %s, expected %s" % (res, exp)
-                    else:
-                        tried = [e[1] for e in fake.log if e[0] == "connect"]
-                        upto = (usable[0] + 1) if usable else naddr
-                        exp_tried = ["10.0.0.%d" % i for i in range(upto) if create_ok[i]] if resolve_ok else []
-                        if tried != exp_tried:
-                            complaint = "addresses tried %s, expected %s (every address in order until the first success)" % (tried, exp_tried)
-                        else:
-                            for i, s in enumerate(fake.socks):
-                                if s is not None and not connect_ok[i] and not s.closed:
-                                    complaint = "the socket of a failed connect attempt (address %d) was not closed" % i
-                            if usable and sock is not fake.socks[usable[0]]:
-                                complaint = "returned socket is not the first one that connected"
-                    if complaint:
-                        rep.violation("_connect_sock: " + complaint, scenario=dict(kind="connect_each", resolve_ok=resolve_ok, create_ok=list(create_ok), connect_ok=list(connect_ok)),
-                                      expected=exp, actual=dict(result=res, log=fake.log), family="C09:connect-each-address")
-    rep.families.append(dict(name="C09:connect-each-address", cases=n_cases, rule="real WebsocketSession._connect_sock against a fake socket module: all outcome patterns (resolver ok/fail, per-address socket()/connect() ok/fail) for up to %d addresses" % (4 if tier == "quick" else 5), exhaustive=True))
+                for v6 in ((False, True) if naddr else (False,)):
+                    for connect_ok in itertools.product((True, False), repeat=naddr):
+                        complaint, exp, res, log = judge_connect(resolve_ok, create_ok, connect_ok, v6)
+                        n_cases += 1
+                        rep.add_case(("connect_each", naddr, resolve_ok, create_ok, connect_ok, v6))
+                        if complaint:
+                            rep.violation("_connect_sock: " + complaint, scenario=dict(kind="connect_each", resolve_ok=resolve_ok, create_ok=list(create_ok), connect_ok=list(connect_ok), v6=v6),
+                                          expected=exp, actual=dict(result=res, log=log), family="C09:connect-each-address")
+    rep.families.append(dict(name="C09:connect-each-address", cases=n_cases, rule="real WebsocketSession._connect_sock against a fake socket module: all outcome patterns (resolver ok/fail, per-address socket()/connect() ok/fail, IPv4-only or alternating IPv6/IPv4 answers) for up to %d addresses" % (4 if tier == "quick" else 5), exhaustive=True))
     rep.exhaustive["connect outcome patterns"] = True
 
 
@@ -306,6 +324,8 @@ def run(rep, info, model, tier, seed):
 def replay(body):
     sc = fam.unjson_sc(body["scenario"])
     if sc.get("kind") == "connect_each":
-        print("replay of connect_each scenarios: run check.py C09 quick")
-        return 2
+        complaint, exp, res, log = judge_connect(sc["resolve_ok"], sc["create_ok"], sc["connect_ok"], bool(sc.get("v6")))
+        print("socket module calls:", log)
+        print("REPLAY:", ("VIOLATION reproduced: %s" % complaint) if complaint else "property holds on this input")
+        return 1 if complaint else 0
     return fam.replay_generic(body, {"C09:fault-at-every-operation": oracle}, show=60)
